@@ -625,9 +625,6 @@ func run(r *mc.Run) {
 		replay(r, d)
 		return
 	}
-	dir := mc.TempDir("c02")
-	defer os.RemoveAll(dir)
-
 	r.Assume("records are written through backend.DiskFile on tmpfs; other BackendStorageFile implementations are not driven")
 	r.Assume("the blob is (id, cookie, data, flags, and each optional field whose flag is set); AppendAtNs and Checksum are not part of the blob")
 	r.Assume("a set HasTtl flag always comes with a non-nil TTL value (EMPTY_TTL or 3m), as every constructor in the tree does")
@@ -648,6 +645,8 @@ func run(r *mc.Run) {
 	const shards = 32
 	r.Parallel("product", shards, func(shard, n int) {
 		tuneWorker()
+		dir := mc.TempDir("c02") // inside the body: a worker process exits right after it
+		defer os.RemoveAll(dir)
 		v := newVolFile(dir, fmt.Sprintf("p%d.dat", shard))
 		defer v.close()
 		for i, b := range blocks {
@@ -668,6 +667,8 @@ func run(r *mc.Run) {
 	r.Set("sequence_max_len", maxLen)
 	r.Parallel("sequences", 16, func(shard, n int) {
 		tuneWorker()
+		dir := mc.TempDir("c02")
+		defer os.RemoveAll(dir)
 		v := newVolFile(dir, fmt.Sprintf("s%d.dat", shard))
 		defer v.close()
 		idx := 0
